@@ -343,6 +343,9 @@ func jsonQuote(rng *rand.Rand, s string) string {
 
 func genC14(rng *rand.Rand, n int, thorough bool, emit func(string)) {
 	for i := 0; i < n; i++ {
+		if i%10000 == 500 {
+			emit(fmt.Sprintf("CFLD %d", 40+rng.Intn(20))) // the constructors from several goroutines at once
+		}
 		sfx := pick(rng, "id", "id", "type")
 		v := genFieldValue(rng)
 		switch rng.Intn(12) {
@@ -395,6 +398,9 @@ func genC14(rng *rand.Rand, n int, thorough bool, emit func(string)) {
 
 func genC19(rng *rand.Rand, n int, thorough bool, emit func(string)) {
 	for i := 0; i < n; i++ {
+		if i%1500 == 700 {
+			emit(fmt.Sprintf("CENC %d", rng.Int63n(1_000_000))) // clones encoded from several goroutines at once
+		}
 		nops := 2 + rng.Intn(14)
 		members := 1
 		var ops []string
